@@ -641,7 +641,7 @@ func genTypedProgram(r *RNG, model *CfgModel, userClasses []*GClass, n int) []*t
 		add(&tStmt{Text: "dbtp " + text, Kind: "probe", Want: &w, RetKind: kind, Tainted: tainted})
 	}
 	collOp := func() {
-		switch r.Intn(11) {
+		switch r.Intn(13) {
 		case 7: // nested array literal, probed as a whole and through indexing
 			var leaves []string
 			var lit func(d, max int) string
@@ -786,6 +786,46 @@ func genTypedProgram(r *RNG, model *CfgModel, userClasses []*GClass, n int) []*t
 			h.keys[kt] = t
 			add(&tStmt{Text: h.name + "[" + kt + "] = " + l, Kind: "coll", Feature: "hash-store", Tainted: tainted})
 			probe(h.name+"["+kt+"]", t, "hash-store")
+		case 11, 12: // Hash#merge returns a new hash: the receiver keeps its own entries
+			h := pickVar(isHash)
+			if h == nil {
+				// a hash of its own, with symbol keys
+				keys := map[string]MT{}
+				var texts []string
+				for _, k := range []string{"a", "b"}[:1+r.Intn(2)] {
+					l, t := literalOfClass(r, Pick(r, scalarClasses))
+					texts = append(texts, k+": "+l)
+					keys[":"+k] = t
+				}
+				h = newVar(mt("Hash"))
+				h.keys = keys
+				add(&tStmt{Text: h.name + " = {" + strings.Join(texts, ", ") + "}", Kind: "coll", Feature: "hash-literal", Tainted: tainted})
+			}
+			ks := make([]string, 0, len(h.keys))
+			for k := range h.keys {
+				ks = append(ks, k)
+			}
+			sort.Strings(ks)
+			l, _ := literalOfClass(r, Pick(r, scalarClasses))
+			kt := Pick(r, []string{":zm1", Pick(r, ks), Pick(r, ks)})
+			if !strings.HasPrefix(kt, ":") {
+				kt = ":zm3" // only symbol keys can be written `k: v`
+			}
+			if t, ok := h.keys[kt]; ok && len(t.Atoms) == 1 {
+				// the same key with a value of another class
+				for tries := 0; tries < 5; tries++ {
+					cl := Pick(r, scalarClasses)
+					if cl != t.Atoms[0] {
+						l, _ = literalOfClass(r, cl)
+						break
+					}
+				}
+			}
+			v := newVar(MT{Unknown: true})
+			add(&tStmt{Text: v.name + " = " + h.name + ".merge({" + strings.TrimPrefix(kt, ":") + ": " + l + "})", Kind: "coll", Feature: "hash-merge", Tainted: tainted})
+			for _, k := range ks {
+				probe(h.name+"["+k+"]", h.keys[k], "hash-merge-receiver")
+			}
 		case 6: // Hash#delete: the declared [Unify, NilClass], one flat union
 			h := pickVar(isHash)
 			if h == nil {
@@ -1345,8 +1385,11 @@ func typedCheck(id, title, rule string) *Check {
 			for g := 0; g < c.N(4, 40); g++ {
 				classes := genClasses(r, 2+r.Intn(3), "")
 				extra := map[string]string{}
+				compactCfg := g%2 == 1
 				for _, cl := range classes {
-					extra["zz_"+strings.ToLower(cl.Name)+".json"] = cl.toJSON(Notation{}, r, nil)
+					// every other generated configuration is written in the compact
+					// notation (A|B, ?T, *T, [T], Int, OptionalT)
+					extra["zz_"+strings.ToLower(cl.Name)+".json"] = cl.toJSON(Notation{Compact: compactCfg}, r, nil)
 				}
 				spec := CfgSpec{Extra: extra}
 				model, err := BuildModel(spec.build())
